@@ -60,7 +60,10 @@ func c06World(t *testing.T, p c06Params) rt.Result {
 		if p.Seed%5 == 2 {
 			stall = 200 * time.Millisecond
 		}
-		tol := c06Tol + 2*stall // (a timer is re-armed when a delayed write is done, and the next write may be delayed too)
+		// up to three delays add up before a hold-timer expiry is on the wire: the last message
+		// was taken over late (the FSM was inside a delayed write), the FSM is inside another
+		// delayed write when the timer fires, and the NOTIFICATION itself is delayed
+		tol := c06Tol + 3*stall
 		sr := rand.New(rand.NewPCG(p.Seed, 607))
 		var smu sync.Mutex
 		stallFn := func() time.Duration {
